@@ -260,3 +260,90 @@ theorem interleaving_filter {α : Type} (p : Nat → α → Bool) (ls : List (Li
       simp [hne, this]
 
 end GV.Proofs.Muxer
+
+namespace GV.Proofs.Muxer
+open GV.Model.Muxer
+
+/-! ### The run-time-registration machine restricted to reads is `run` -/
+
+theorem step_acc (p : Phase) (rout : List Seg) (b : UInt8) :
+    RState.step ⟨p, rout⟩ b = ⟨(RState.step ⟨p, []⟩ b).phase, (RState.step ⟨p, []⟩ b).rout ++ rout⟩ := by
+  simp only [RState.step]
+  cases h : stepByte p b with
+  | mk p' o => cases o <;> simp
+
+theorem feed_acc (chunk : Bytes) : ∀ (p : Phase) (rout : List Seg),
+    feed ⟨p, rout⟩ chunk = ⟨(feed ⟨p, []⟩ chunk).phase, (feed ⟨p, []⟩ chunk).rout ++ rout⟩ := by
+  induction chunk with
+  | nil => intro p rout; simp [feed_nil]
+  | cons b t ih =>
+    intro p rout
+    rw [feed_cons, feed_cons, step_acc p rout b]
+    generalize RState.step ⟨p, []⟩ b = s1
+    obtain ⟨p1, r1⟩ := s1
+    rw [ih p1 (r1 ++ rout), ih p1 r1]
+    simp [List.append_assoc]
+
+theorem routeAll_append (c : Cfg) (a b : List Seg) :
+    routeAll c (a ++ b) =
+      match routeAll c a with
+      | (ds, some e) => (ds, some e)
+      | (ds, none) => (ds ++ (routeAll c b).1, (routeAll c b).2) := by
+  induction a with
+  | nil => simp [routeAll]
+  | cons s t ih =>
+    simp only [List.cons_append, routeAll]
+    cases hr : route c s.pid with
+    | err e => simp
+    | deliver k r =>
+      simp only [ih]
+      cases hra : routeAll c t with
+      | mk ds oe => cases oe <;> simp
+
+/-- State of the run-time machine that corresponds to a reader state under fixed registrations. -/
+def mstateOf (c : Cfg) (R : RState) : MState :=
+  match routeAll c R.rout.reverse with
+  | (ds, some e) => ⟨.halted, c.regs, ds.reverse, some e⟩
+  | (ds, none) => ⟨R.phase, c.regs, ds.reverse, if R.phase = .halted then some .zeroLen else none⟩
+
+theorem act_data_mstateOf (c : Cfg) (R : RState) (ch : Bytes) :
+    MState.act c.mode (mstateOf c R) (.data ch) = mstateOf c (feed R ch) := by
+  obtain ⟨P, rout⟩ := R
+  have hfa := feed_acc ch P rout
+  generalize hr0 : feed ⟨P, []⟩ ch = r0 at hfa
+  obtain ⟨P', newRev⟩ := r0
+  simp only at hfa
+  rw [hfa]
+  unfold mstateOf
+  simp only [List.reverse_append]
+  rw [routeAll_append c rout.reverse newRev.reverse]
+  cases hra : routeAll c rout.reverse with
+  | mk D oe =>
+    cases oe with
+    | some e => simp [MState.act]
+    | none =>
+      simp only
+      by_cases hP : P = Phase.halted
+      · subst hP
+        have hh := feed_halted [] ch
+        rw [hr0] at hh
+        simp only [RState.mk.injEq] at hh
+        obtain ⟨rfl, rfl⟩ := hh
+        simp [MState.act, routeAll]
+      · simp only [MState.act, hP, ↓reduceIte, hr0]
+        have hcfg : (⟨c.mode, c.regs⟩ : Cfg) = c := rfl
+        rw [hcfg]
+        cases hrb : routeAll c newRev.reverse with
+        | mk ds oe2 => cases oe2 <;> simp [List.reverse_append]
+
+theorem fold_data_mstateOf (c : Cfg) (chunks : List Bytes) : ∀ (R : RState),
+    (chunks.map Act.data).foldl (MState.act c.mode) (mstateOf c R) = mstateOf c (feedAll R chunks) := by
+  induction chunks with
+  | nil => intro R; rfl
+  | cons ch t ih =>
+    intro R
+    simp only [List.map_cons, List.foldl_cons, feedAll]
+    rw [act_data_mstateOf c R ch]
+    exact ih (feed R ch)
+
+end GV.Proofs.Muxer
